@@ -280,3 +280,20 @@ Definition right_chain_b (t out : list cell) : bool :=
   if is_incremental t then
     forallb (fun e => chained_b (ev e) (row_of_cell out e)) (right_edge t)
   else forallb (fun c => match prev c with None => true | Some _ => false end) out.
+
+(* ------------------------------------------------------------------ descriptions of the decision
+   tokens regenerated from the source by translate/t_acc.py (GenExt.v) *)
+Inductive lag_operand := WantedLag | EdgeLag.
+Record lagcmp_desc := mkLagCmp { lc_left : lag_operand; lc_op : cmpop; lc_right : lag_operand }.
+Definition eval_lag_operand (o : lag_operand) (edge_lag lag : Z) : Z :=
+  match o with WantedLag => lag | EdgeLag => edge_lag end.
+Definition eval_lagcmp (d : lagcmp_desc) (edge_lag lag : Z) : bool :=
+  eval_cmpop (lc_op d) (eval_lag_operand (lc_left d) edge_lag lag) (eval_lag_operand (lc_right d) edge_lag lag).
+(* the two spellings of `dev_lag > cell.dev_lag(unit)` *)
+Definition lagcmp_spec_ok (d : lagcmp_desc) : bool :=
+  match d with
+  | mkLagCmp WantedLag CGt EdgeLag | mkLagCmp EdgeLag CLt WantedLag => true
+  | _ => false
+  end.
+(* right_edge takes row[-1] *)
+Definition edge_index_ok (i : Z) : bool := i =? -1.
